@@ -22,22 +22,30 @@ FUNCTIONS = ['pymeeus/Epoch.py:Epoch.easter', 'pymeeus/Epoch.py:Epoch.jewish_pes
 
 MANIFEST = dict(
     text=("Lean 4 theorems (Props/C19.lean) about the exact-arithmetic model of Epoch.easter, jewish_pesach, "
-          "moslem2gregorian, gregorian2moslem (with dow and the Julian branch of doy2date): for EVERY integer year "
-          ">= -4712 (no upper bound) Easter is a valid date of the calendar in force between 22 March and 25 April, a "
-          "Sunday, and equal to the tabular (golden number / epact / paschal full moon / next Sunday) Computus; for "
-          "every year 1..3000 Pesach is 15 Nisan of the arithmetic Hebrew calendar (molad arithmetic, four "
-          "postponements, Rosh Hashanah(next) - 163) and a Sun/Tue/Thu/Sat (kernel evaluation of an integer shadow "
-          "proved equal to the model for all years); Moslem: see the theorem list of the evidence file for the range "
-          "proved. The model is tied to /repo by running its binary64 and exact instantiations against the real code "
-          "bit for bit; the property's clauses are evaluated on the real code against independent calendar oracles: "
-          "every Easter year -4712..10000 and every Pesach year 1..3000 in both tiers, every date of AH 1..2500 and "
-          "every civil date 622-07-16..3000 in thorough (sampled, with all cycle boundaries, in quick)."),
+          "moslem2gregorian, gregorian2moslem (with dow and the Julian branch of doy2date). Easter: for EVERY integer "
+          "year (>= -4712 for the calendar clause, no upper bound) the result equals the tabular Computus (golden "
+          "number, Dionysius' table / epact with solar and lunar equation and both exceptions, paschal full moon, "
+          "next Sunday), is a civil date between 22 March and 25 April and dow() of its Epoch is 0. Pesach: for every "
+          "year 1..3000 the result is 15 Nisan of the arithmetic Hebrew calendar (molad in parts, four postponements, "
+          "Rosh Hashanah(next) - 163) and a Sun/Tue/Thu/Sat (integer shadow proved equal to the model for all years, "
+          "evaluated by the kernel on the 3000 years). Moslem: for EVERY date of the tabular Islamic calendar (all "
+          "years >= 1) and EVERY civil date from 622-07-16 (no upper bound) both directions return the date with the "
+          "same day number (epoch 16 July 622 Julian = JDN 1948440), both round trips are identities, consecutive "
+          "Moslem dates are consecutive civil days, months have 30/29 and years 354/355 days, and the two while loops "
+          "of gregorian2moslem (modelled with loopFuel, fuel 8) terminate for every argument (at most 2 + 1 rounds). "
+          "The model is tied to /repo by running its binary64 and exact instantiations against the real code bit for "
+          "bit, and the Lean specifications are run against independent Python oracles; the property's clauses are "
+          "evaluated on the real code against those oracles: every Easter year -4712..10000 and every Pesach year "
+          "1..3000 in both tiers, every date of AH 1..2500 and every civil date 622-07-16..3000 in thorough (a third "
+          "of them, with every cycle boundary and the 1582/1583 neighbourhood, in quick)."),
     note=("Trusted: Lean kernel, Mathlib, axioms propext/Classical.choice/Quot.sound; the hand-written model "
           "(lean/templates/EpochRelig.lean, EpochCore.lean) and its correspondence run; the specs Spec/Computus, "
-          "Spec/Hebrew, Spec/Islamic (short, written from the calendar definitions); arguments are Python ints "
-          "(float arguments are floored by the code first). All quantities are integers well below 2^53 except "
-          "Pesach's q, whose binary64 value is compared bit for bit with the F model and whose integer outcome is "
-          "compared with the exact model on every year of the quantifier."),
+          "Spec/Hebrew, Spec/Islamic, Spec/Civil (short, written from the calendar definitions, cross-checked against "
+          "the Python oracles by the spec/* cases). Arguments are Python ints (float arguments are floored by the "
+          "code first). All quantities are integers well below 2^53 except Pesach's q, whose binary64 value is "
+          "compared bit for bit with the F model and whose integer outcome is compared with the exact model on every "
+          "year of the quantifier; moslem2gregorian returns a float day (16.0) on its Julian branch, which the "
+          "property does not forbid and the model reproduces."),
     technique="Lean 4 proof (staged omega, chunked kernel evaluation) + model/implementation correspondence check",
     ref='6 C19')
 
@@ -45,7 +53,8 @@ TRUSTED = ['independent Python oracles of harness/c19.py (civil day count, tabul
            'tabular Islamic calendar) used only by the (I) predicates']
 ASSUMPTIONS = ['arguments are ints; years for Pesach restricted to 1..3000 and Moslem dates to AH 1..2500 / civil '
                '622-07-16..3000-12-31 in (I), as the property quantifies']
-RULE = 'distinct (model function, argument tuple) pairs sent to the model and to the implementation'
+RULE = ('distinct (model function, argument tuple) pairs sent to the model and to the implementation; the case classes '
+        'spec/* compare the Lean specifications with the Python oracles instead (no implementation involved)')
 
 E_YMIN, E_YMAX = -4712, 10000
 P_YMIN, P_YMAX = 1, 3000
@@ -208,6 +217,33 @@ def isl_from_jdn(j):
     return (h, m, rem + 1)
 
 
+def isl_civil_by_counting(h, m, d):
+    """civil date of an Islamic date by counting whole years and months from the epoch (for the spec tie)"""
+    n = ISL_EPOCH
+    cyc, yy = divmod(h - 1, 30)
+    n += 10631 * cyc
+    for k in range(1, yy + 1):
+        n += 355 if (k % 30) in ISL_LEAP else 354
+    for mm in range(1, m):
+        n += isl_mlen(h, mm)
+    n += d - 1
+    return _civ_from_jdn(n)
+
+
+def _civ_from_jdn(j):
+    """civil date of a day number, by search on civ_jdn"""
+    y = max(min((j - 1721058) // 366, (j - 1721058) // 365) - 1, -4712)   # 1721058 = JDN of 0000-01-01 (Julian): a lower bound
+    while civ_jdn(y + 1, 1, 1) <= j:
+        y += 1
+    m = 1
+    while m < 12 and civ_jdn(y, m + 1, 1) <= j:
+        m += 1
+    d = j - civ_jdn(y, m, 1) + 1
+    if (y, m) == (1582, 10) and d > 4:
+        d += 10
+    return (y, m, d)
+
+
 def _selfcheck():
     import datetime
     for (y, m, d) in ((1582, 10, 15), (2000, 1, 1), (9999, 12, 31), (1600, 2, 29)):
@@ -218,6 +254,9 @@ def _selfcheck():
     assert all(heb_nisan15_by_months(h) == heb_rh(h + 1) - 163 for h in range(3700, 6800, 7))
     assert computus(2000) == (4, 23) and computus(1981) == (4, 19) and computus(1954) == (4, 18)
     assert isl_from_jdn(isl_jdn(1421, 12, 29)) == (1421, 12, 29)
+    assert _civ_from_jdn(2299160) == (1582, 10, 4) and _civ_from_jdn(2299161) == (1582, 10, 15)
+    assert _civ_from_jdn(2451545) == (2000, 1, 1) and _civ_from_jdn(0) == (-4712, 1, 1)
+    assert isl_civil_by_counting(1421, 1, 1) == (2000, 4, 6) and isl_civil_by_counting(1, 1, 1) == (622, 7, 16)
 
 
 _selfcheck()
@@ -248,6 +287,8 @@ def check_easter(ctx, Epoch, y, klass='easter'):
     ctx.predicate('easter_is_sunday', weekday(j) == 0 and dw == '0', inp, {'easter': out, 'weekday': weekday(j), 'dow()': dw}, klass)
     ctx.predicate('easter_equals_tabular_computus', (m, d) == computus(y), inp, {'easter': out, 'computus': list(computus(y))}, klass)
     ctx.case('relig_dow_ymd', [y, m, d], dw, q='exact', klass='dow')
+    # the Lean specification against the Python oracle (no implementation involved)
+    ctx.case('spec_easter', [y], enc(computus(y)), q='exact', klass='spec/computus', f=False)
 
 
 def check_pesach(ctx, Epoch, y, klass='pesach'):
@@ -273,6 +314,8 @@ def check_pesach(ctx, Epoch, y, klass='pesach'):
     ctx.predicate('pesach_is_15_nisan', j == heb_nisan15_by_months(h), inp,
                   {'pesach': out, 'jdn': j, 'nisan15': heb_nisan15_by_months(h)}, klass)
     ctx.case('relig_dow_ymd', [y, m, d], dw, q='exact', klass='dow')
+    ctx.case('spec_nisan15', [h], enc(heb_nisan15_by_months(h)), q='exact', klass='spec/hebrew', f=False)
+    ctx.case('spec_rosh_hashanah', [h + 1], enc(heb_rh(h + 1)), q='exact', klass='spec/hebrew', f=False)
 
 
 def _m2g(Epoch, h, m, d):
@@ -293,6 +336,11 @@ def check_hijri(ctx, Epoch, h, m, d, klass='hijri', tie=True):
     civ, out = _m2g(Epoch, h, m, d)
     if tie:
         ctx.case('moslem2gregorian', [h, m, d], out, q='exact', klass='m2g/' + klass)
+        if klass != 'day':
+            ctx.case('spec_islamic_jdn', [h, m, d], enc(civ_jdn(*isl_civil_by_counting(h, m, d))), q='exact',
+                     klass='spec/islamic', f=False)
+            ctx.case('spec_islamic_next', [h, m, d], enc(isl_next(h, m, d)), q='exact', klass='spec/islamic', f=False)
+            ctx.case('spec_islamic_valid', [h, m, d + 1], enc(d + 1 <= isl_mlen(h, m)), q='exact', klass='spec/islamic', f=False)
     ok = civ is not None and civ_valid(*civ)
     ctx.predicate('m2g_returns_civil_date', ok, inp, out, klass)
     if not ok:
